@@ -23,9 +23,11 @@ RETAIN = 10       # results of the last ops kept alive and re-digested (H5)
 # ----------------------------------------------------------------- generation
 FOCUS = {
     "solver": {"mk_form": 1.5, "assemble": 3.0, "mk_solver": 1.5, "solve": 6.0,
-               "mk_vec": 1.0, "bc_helper": 0.5},
+               "mk_vec": 1.0, "bc_helper": 0.5, "mk_system": 1.0,
+               "solve_system": 2.0},
     "bc": {"mk_form": 1.5, "assemble": 3.0, "mk_vec": 2.0, "bc_helper": 6.0,
-           "enforce_overwrite": 1.5, "solve": 1.0},
+           "enforce_overwrite": 1.5, "solve": 1.0, "mk_system": 2.0,
+           "solve_system": 3.0},
     "mapping": {"mk_mapping": 2.0, "mapping_eval": 8.0, "mesh_tables": 1.0,
                 "mesh_refined": 0.5, "mesh_transform": 0.5},
     "rebuild": {"mesh_rebuild": 4.0, "mesh_transform": 2.5, "mesh_refined": 2.0,
@@ -302,6 +304,8 @@ def execute(trace, use_pristine=True):
             if env.get("gc"):
                 bump(faults, "ambient-gc")
             pre = {r: C.operand_arrays(W[r]) for r in refs}
+            pre_v = {r: C.operand_arrays(W[r], canonical=True) for r in refs
+                     if C.has_sparse(W[r])}
             _set_env(env, reference=False)
             val, res, exc = _apply(o["op"], W, o["args"])
             if exc is not None:
@@ -312,7 +316,13 @@ def execute(trace, use_pristine=True):
             # ---- H2 operand immutability
             for r in refs:
                 if pre[r] != post[r]:
-                    violation = viol("H2-operand-mutated", k, o,
+                    cls = "H2-operand-mutated"
+                    if r in pre_v and pre_v[r] == C.operand_arrays(
+                            W[r], canonical=True):
+                        # same matrix, entry for entry; only the order in
+                        # which its storage arrays list the entries changed
+                        cls = "H2s-sparse-storage-reordered"
+                    violation = viol(cls, k, o,
                                      {"operand": r,
                                       "type": type(W[r]).__name__})
                     break
